@@ -7,7 +7,7 @@ complete rendering, the default equals complete exactly when Complete(m), and al
 """
 import json, os, random
 from vlib import *  # noqa
-import docs, project
+import docs, project, build
 
 LEVEL = "exploration"
 GEN = "CONSTANTS MaxKeys = %d\n Sim = %s\nINIT Init\nNEXT Next\nINVARIANTS Law Emit\nCHECK_DEADLOCK FALSE\n"
@@ -80,6 +80,40 @@ def run(tier, seed):
             trace.append(dict(e="wrap", null=null, fmt=docs.FMTNAME[fmn], ext=x, body=bn, m=blocks[bi]["m"], occurs=(full or b"").count(core) if core else 1, full_len=len(full or b""), snip_len=len(snip or b""),
                               dflt=project.fnv(out or b""), full=project.fnv(full or b""), snip=project.fnv(snip or b""), src=blocks[bi]["src"]))
             n += 1
+    # the command line: -f / -s (and neither) together with the switches that choose the extension set -- the same relation, judged by the same monitor
+    import subprocess, concurrent.futures, shutil
+    cli = build.build_cli(); wd = scratch("c20")
+    try:
+        FLAGS = [("", 200001), ("-c", 200002), ("--nosmart", 200003), ("--nolabels", 200004), ("--notransclude", 200005)]
+        mblocks = [bi for bi in range(len(blocks)) if blocks[bi]["m"]][:: max(1, len(blocks) // 3)][:3]
+        nometa = [bi for bi in range(len(blocks)) if not blocks[bi]["m"]][:1]
+        jobs = []
+        for bn in [b_ for b_ in BODIES if b_ != "keylike"][: (3 if tier == "quick" else 7)]:
+            for bi in nometa + mblocks:
+                for fl, xt in FLAGS:
+                    if fl == "-c" and blocks[bi]["m"]: continue            # (compatibility mode reads no metadata: the completeness rule speaks of MultiMarkdown documents)
+                    jobs.append((bn, bi, fl, xt))
+        def one(a):
+            k, (bn, bi, fl, xt) = a
+            f = os.path.join(wd, "w%d.txt" % k); open(f, "wb").write((blocks[bi]["src"] + bodies[bn]).encode("utf-8")); outs = {}
+            for fm_ in FM:
+                for sw in ("", "-f", "-s"):
+                    p = subprocess.run([cli, "-t", fm_] + ([fl] if fl else []) + ([sw] if sw else []) + [f], stdout=subprocess.PIPE, stderr=subprocess.PIPE, env=san_env(os.path.join(wd, "cli%d" % k)), timeout=60)
+                    outs[(fm_, sw)] = p.stdout if p.returncode == 0 else None
+            return outs
+        with concurrent.futures.ThreadPoolExecutor(NCPU) as ex:
+            couts = list(ex.map(one, list(enumerate(jobs))))
+        trace.append(dict(e="reset"))
+        for (bn, bi, fl, xt), outs in zip(jobs, couts):
+            for fm_ in FM:
+                out, full, snip = outs[(fm_, "")], outs[(fm_, "-f")], outs[(fm_, "-s")]
+                null = out is None or full is None or snip is None
+                core = (snip or b"").rstrip(b"\n")
+                trace.append(dict(e="wrap", null=null, fmt=fm_, ext=xt, body=bn, m=blocks[bi]["m"], occurs=(full or b"").count(core) if core else 1, full_len=len(full or b""), snip_len=len(snip or b""),
+                                  dflt=project.fnv(out or b""), full=project.fnv(full or b""), snip=project.fnv(snip or b""), src=blocks[bi]["src"])); n += 1
+        chk.cov["cli_cases"] = len(jobs) * len(FM)
+    finally:
+        shutil.rmtree(wd, ignore_errors=True)
     acc, rejected, states, info = tlc.validate_trace("WrapperTrace", os.path.join(VERIF, "spec", "WrapperTrace.cfg"), trace, max_rejects=40, timeout=1500)
     chk.add("traces_validated_against_impl", len(segs) - len(problems))
     chk.cov["evaluations"] = n * 3; chk.cov["distinct_nontrivial"] = len(cases)
